@@ -1,7 +1,7 @@
 (* Conv_proofs.v -- C11, progress steps of the closed loop: one fault-free run of the queued work item serves a servable
    node (its API object has pod CIDRs afterwards); one fault-free run of the work item of a ClusterCIDR whose deletion was
    requested and on which no node depends removes the entry and the object. *)
-From NIPAM Require Import Sys Geom_proofs Pool_proofs Prio_proofs Alloc_proofs Inv_proofs Sys_proofs Complete_proofs Resv_proofs Path_proofs Hist_proofs Progress_proofs.
+From NIPAM Require Import Sys Geom_proofs Pool_proofs Prio_proofs Alloc_proofs Inv_proofs Sys_proofs World_proofs Complete_proofs Resv_proofs Path_proofs NoPanic_proofs Hist_proofs Progress_proofs.
 From Coq Require Import Lia.
 Open Scope N_scope.
 
@@ -84,3 +84,274 @@ Section WorldProgress.
       cbn [N.eqb Pos.eqb fst snd]. split; [exact A|]. split; [reflexivity|]. exists m1. split; [exact B|reflexivity].
   Qed.
 End WorldProgress.
+
+Lemma prioritized_try_nonempty held ps : forall m m1 q, MapInv m -> prioritized_try held m ps = (m1, Ok ([], q)) -> False.
+Proof.
+  induction ps as [|p0 ps IH]; intros m m1 q M Ep; cbn [prioritized_try] in Ep; [discriminate|].
+  destruct (get_entry m p0) as [c0|] eqn:Eg; [|discriminate]. pose proof (get_entry_inv m p0 c0 M Eg) as Ec.
+  destruct (cc_v4 c0) as [p4|] eqn:E4.
+  - destruct (allocate_cidr held m p0 V4) as [ma r4] eqn:Ea. pose proof (allocate_cidr_inv _ _ _ _ _ _ M Ea) as Ma.
+    destruct r4 as [x4|e4|]; [|eapply IH; eassumption|discriminate].
+    destruct (cc_v6 c0); [|discriminate]. destruct (allocate_cidr held ma p0 V6) as [mb r6] eqn:Eb. pose proof (allocate_cidr_inv _ _ _ _ _ _ Ma Eb) as Mb.
+    destruct r6 as [x6|e6|]; [discriminate| |discriminate].
+    eapply IH; [|exact Ep]. destruct (get_entry mb p0) as [c'|] eqn:Eg2; [|exact Mb].
+    destruct (cc_release c' x4) as [c''| |] eqn:Er; try exact Mb.
+    apply set_entry_inv; [exact Mb|]. eapply cc_release_inv; [exact (get_entry_inv mb p0 c' Mb Eg2)| |exact Er].
+    destruct (allocate_cidr_wf _ _ _ _ _ _ M Ea) as [Hw _]. exact Hw.
+  - destruct (cc_v6 c0) as [p6|] eqn:E6.
+    + destruct (allocate_cidr held m p0 V6) as [mb r6] eqn:Eb. pose proof (allocate_cidr_inv _ _ _ _ _ _ M Eb) as Mb.
+      destruct r6 as [x6|e6|]; [discriminate|eapply IH; eassumption|discriminate].
+    + destruct (ei_some c0 Ec) as [H|H]; congruence.
+Qed.
+
+(* ---------- what a fault-free run of the work item of a node without pod CIDRs can do ---------- *)
+Definition refused_at (po : parse_oracle) (lab : label_oracle) (m : cidrmap) (held : list cidr) (ls : labels) : Prop :=
+  forall ps, ordered_matching po lab m ls true = Ok ps -> forall p c, In p ps -> get_entry m p = Some c -> no_room m held c.
+
+Theorem sync_node_pok_outcome po lab svcs canp apisame held m node nr outs m' r fx :
+  MapInv m -> KU m -> n_cidrs node = [] -> n_deleting node = false -> n_cidrs nr = [] -> (forall cs, canp cs = true) ->
+  sync_node po lab svcs canp apisame held m (Some node) (Some nr) (POk :: outs) = (m', r, fx) ->
+  (exists cs, cs <> [] /\ r = Ok tt /\ fx = [FxPatch (n_name node) cs POk]) \/
+  (fx = [FxEvent 1 (n_name node)] /\ msim m m' /\ refused_at po lab m held (n_labels node)).
+Proof.
+  intros M HK Hn Hd Hnr Hcanp H. unfold sync_node in H. rewrite Hd in H. unfold allocate_or_occupy in H. rewrite Hn in H.
+  unfold prioritized_cidrs in H.
+  pose proof (ordered_matching_no_panic po lab m (n_labels node) true M) as Hnpo.
+  destruct (ordered_matching po lab m (n_labels node) true) as [ps|e|] eqn:Ho; [| |contradiction].
+  2:{ inversion H; subst. right. split; [reflexivity|]. split; [apply msim_refl|]. intros ps Hps. rewrite Ho in Hps. discriminate Hps. }
+  pose proof (prioritized_try_no_panic held ps m M (ordered_matching_valid _ _ _ _ _ _ HK Ho)) as Hnp.
+  destruct (prioritized_try held m ps) as [m1 rp] eqn:Ep. cbn [snd] in Hnp.
+  destruct rp as [[cs q]|e|]; [| |contradiction].
+  2:{ inversion H; subst. right. split; [reflexivity|]. split; [exact (prioritized_try_result _ _ _ _ _ M Ep)|].
+      intros ps' Hps' p c Hin Hg. rewrite Ho in Hps'. inversion Hps'; subst ps'. exact (prioritized_try_refusal held ps m m m' e M (msim_refl m) Ep p c Hin Hg). }
+  pose proof (prioritized_try_result held ps m m1 _ M Ep) as (_ & _ & (e1 & Hg1 & Hkeys)).
+  destruct cs as [|x cs].
+  { exfalso. exact (prioritized_try_nonempty held ps m m1 q M Ep). }
+  left. unfold update_cidrs_allocation in H. rewrite Hnr in H. cbn [length Nat.eqb andb] in H.
+  cbn [patch_loop] in H. rewrite Hcanp in H. rewrite Hg1 in H. inversion H; subst.
+  exists (x :: cs). split; [discriminate|split; reflexivity].
+Qed.
+
+(* ---------- a fair, fault-free round over the nodes that have no pod CIDRs ---------- *)
+Lemma find_node_view l a : NoDup (map an_name l) -> In a l -> find_node (an_name a) (map node_view l) = Some (node_view a).
+Proof.
+  induction l as [|h t IH]; intros Hnd Hin; [destruct Hin|]. cbn in *. inversion Hnd; subst.
+  destruct Hin as [->|Hin]; [rewrite str_eqb_refl; reflexivity|].
+  destruct (str_eqb (an_name h) (an_name a)) eqn:E; [|exact (IH H2 Hin)].
+  apply str_eqb_eq in E. exfalso. apply H1. rewrite E. apply in_map. exact Hin.
+Qed.
+Lemma find_anode_in_nodup l a : NoDup (map an_name l) -> In a l -> find_anode (an_name a) l = Some a.
+Proof.
+  induction l as [|h t IH]; intros Hnd Hin; [destruct Hin|]. cbn in *. inversion Hnd; subst.
+  destruct Hin as [->|Hin]; [rewrite str_eqb_refl; reflexivity|].
+  destruct (str_eqb (an_name h) (an_name a)) eqn:E; [|exact (IH H2 Hin)].
+  apply str_eqb_eq in E. exfalso. apply H1. rewrite E. apply in_map. exact Hin.
+Qed.
+Lemma put_node_view l a' : NoDup (map an_name l) -> (exists a, In a l /\ an_name a = an_name a') ->
+  put_node (node_view a') (map node_view l) = map node_view (upd_anode a' l).
+Proof.
+  intros Hnd (a & Ha & Hn). unfold put_node. cbn [node_view n_name].
+  assert (Hf : exists n, find_node (an_name a') (map node_view l) = Some n).
+  { clear - Ha Hn. induction l as [|h t IH]; [destruct Ha|]. cbn. destruct (str_eqb (an_name h) (an_name a')) eqn:E; [eexists; reflexivity|].
+    destruct Ha as [->|Ha]; [rewrite Hn, str_eqb_refl in E; discriminate|exact (IH Ha)]. }
+  destruct Hf as (n & Hf). rewrite Hf. clear - Hnd. induction l as [|h t IH]; [reflexivity|]. cbn in *. inversion Hnd; subst.
+  destruct (str_eqb (an_name h) (an_name a')) eqn:E; cbn.
+  - f_equal. rewrite map_map. apply map_ext_in. intros x Hx. cbn.
+    destruct (str_eqb (an_name x) (an_name a')) eqn:Ex; [|reflexivity].
+    exfalso. apply str_eqb_eq in E. apply str_eqb_eq in Ex. apply H1. rewrite E, <- Ex. apply in_map. exact Hx.
+  - rewrite (IH H2). reflexivity.
+Qed.
+
+Definition with_cidrs (a : anode) (cs : list cidr) : anode :=
+  mkANode (an_name a) (an_labels a) (map (fun c => PGood c true) cs) (an_deleting a).
+
+Section Round.
+  Variable po : parse_oracle.
+  Variable lab : label_oracle.
+
+  (* one fault-free run of the work item of node a (no pod CIDRs, known as it is) on a world whose node feed is empty *)
+  Lemma run_node_sync_quiet W m a outs :
+    w_ctl W = Some m -> MapInv m -> KU m -> w_synced W = true -> w_nfeed W = [] ->
+    w_ncache W = map node_view (w_nodes W) -> NoDup (map an_name (w_nodes W)) ->
+    In a (w_nodes W) -> an_cidrs a = [] -> an_deleting a = false ->
+    (exists cs m', cs <> [] /\
+       fst (run_node_sync po lab W (Some (node_view a)) (an_name a) (POk :: outs)) =
+         set_api (set_ctl W (Some m')) (upd_anode (with_cidrs a cs) (w_nodes W)) (w_ccs W) (w_rv W) [NUpd (node_view (with_cidrs a cs))] (w_cfeed W)) \/
+    (exists m', fst (run_node_sync po lab W (Some (node_view a)) (an_name a) (POk :: outs)) = set_ctl W (Some m') /\
+                msim m m' /\ refused_at po lab m (held_cidrs (w_ncache W)) (an_labels a)).
+  Proof.
+    intros Em M HK Hsy Hf Hca Hnd Hin Hc Hd. unfold run_node_sync. rewrite Em.
+    assert (Hfa : find_anode (an_name a) (w_nodes W) = Some a) by (apply find_anode_in_nodup; assumption).
+    assert (Hfn : find_node (an_name a) (w_ncache W) = Some (node_view a)) by (rewrite Hca; apply find_node_view; assumption).
+    rewrite Hfn.
+    assert (Hcanp : forall cs, can_patch W (an_name a) cs = true) by (intros cs; unfold can_patch; rewrite Hfa, Hc; reflexivity).
+    destruct (sync_node po lab (svc_list (w_svc W)) (can_patch W (an_name a)) (api_same W (an_name a)) (held_cidrs (w_ncache W)) m
+                (Some (node_view a)) (Some (node_view a)) (POk :: outs)) as [[m' r] fx] eqn:Es.
+    destruct (sync_node_pok_outcome _ _ _ _ _ _ _ (node_view a) (node_view a) _ _ _ _ M HK Hc Hd Hc Hcanp Es) as [(cs & Hne & -> & ->)|(-> & Hms & Href)].
+    - left. exists cs, m'. split; [exact Hne|]. cbn [fst after_call apply_effects node_view n_name].
+      unfold apply_patch. cbn [set_ctl w_nodes]. rewrite Hfa, Hc. cbn [set_api set_ctl w_nodes w_ccs w_rv w_cfeed w_nfeed].
+      unfold push_nev. cbn [w_synced w_nfeed set_ctl]. rewrite Hsy, Hf. reflexivity.
+    - right. exists m'. split; [|split; [exact Hms|exact Href]].
+      cbn [fst apply_effects]. unfold after_call. destruct r; try reflexivity.
+      exfalso. pose proof (sync_node_no_panic po lab (svc_list (w_svc W)) (can_patch W (an_name a)) (api_same W (an_name a)) (held_cidrs (w_ncache W)) m
+                (Some (node_view a)) (Some (node_view a)) (POk :: outs) M HK) as Hnp. rewrite Es in Hnp. cbn in Hnp. contradiction.
+  Qed.
+
+  Record Quiet (w : world) : Prop := {
+    q_winv : WInv w;
+    q_wk : WK w;
+    q_ctl : exists m, w_ctl w = Some m;
+    q_sync : w_synced w = true;
+    q_feed : w_nfeed w = [];
+    q_cache : w_ncache w = map node_view (w_nodes w);
+    q_names : NoDup (map an_name (w_nodes w));
+    q_nodel : forall a, In a (w_nodes w) -> an_deleting a = false
+  }.
+
+  Definition serve_one (w : world) (key : str) : world := run po lab w [FetchNode 0 key; RunNode 0 [POk]; DeliverNode].
+
+  Definition ctl_of (w : world) : cidrmap := match w_ctl w with Some m => m | None => [] end.
+
+  Lemma serve_one_spec w a : Quiet w -> In a (w_nodes w) -> an_cidrs a = [] ->
+    let w3 := serve_one w (an_name a) in
+    Quiet w3 /\ w_ncache w3 = map node_view (w_nodes w3) /\
+    ((exists cs, cs <> [] /\ w_nodes w3 = upd_anode (with_cidrs a cs) (w_nodes w)) \/
+     (w_nodes w3 = w_nodes w /\ msim (ctl_of w) (ctl_of w3) /\ refused_at po lab (ctl_of w) (held_cidrs (w_ncache w)) (an_labels a))).
+  Proof.
+    intros Q Hin Hc. destruct Q as [I K (m & Em) Hsy Hf Hca Hnd Hdel].
+    (* the three steps keep the structural invariants *)
+    assert (Hinv : WInv (serve_one w (an_name a)) /\ WK (serve_one w (an_name a))).
+    { unfold serve_one, run. cbn [fold_left].
+      pose proof (step_winv po lab w (FetchNode 0 (an_name a)) I Logic.I) as I1. pose proof (proj1 (step_no_panic po lab w (FetchNode 0 (an_name a)) I K Logic.I)) as K1.
+      pose proof (step_winv po lab _ (RunNode 0 [POk]) I1 Logic.I) as I2. pose proof (proj1 (step_no_panic po lab _ (RunNode 0 [POk]) I1 K1 Logic.I)) as K2.
+      pose proof (step_winv po lab _ DeliverNode I2 Logic.I) as I3. pose proof (proj1 (step_no_panic po lab _ DeliverNode I2 K2 Logic.I)) as K3.
+      split; assumption. }
+    destruct Hinv as [I3 K3].
+    (* the world the work item runs on *)
+    set (W1 := set_fetch (set_fetch w ((0, (an_name a, find_node (an_name a) (w_ncache w))) :: filter (fun x => negb (fst x =? 0)) (w_nfetch w)) (w_cfetch w))
+                 (filter (fun x => negb (fst x =? 0)) ((0, (an_name a, find_node (an_name a) (w_ncache w))) :: filter (fun x => negb (fst x =? 0)) (w_nfetch w))) (w_cfetch w)).
+    assert (Hfn : find_node (an_name a) (w_ncache w) = Some (node_view a)) by (rewrite Hca; apply find_node_view; assumption).
+    assert (Hrun : serve_one w (an_name a) = fst (step po lab (fst (run_node_sync po lab W1 (Some (node_view a)) (an_name a) [POk])) DeliverNode)).
+    { unfold serve_one, run. cbn [fold_left step fst set_fetch w_nfetch w_cfetch find]. cbn [N.eqb]. rewrite Hfn. reflexivity. }
+    destruct (run_node_sync_quiet W1 m a [] Em (wi_ctl w I m Em) (K m Em) Hsy Hf Hca Hnd Hin Hc (Hdel a Hin)) as [(cs & m' & Hne & Hr)|(m' & Hr & Hms & Href)].
+    - (* served *)
+      rewrite Hr in Hrun. cbn [step set_api set_ctl w_nfeed] in Hrun. unfold handle_nevent in Hrun.
+      cbn [set_caches set_api set_ctl w_ctl w_ncache w_ccache w_nfeed w_cfeed w_nq w_cq set_queues fst W1 set_fetch] in Hrun.
+      assert (Hput : put_node (node_view (with_cidrs a cs)) (w_ncache w) = map node_view (upd_anode (with_cidrs a cs) (w_nodes w))).
+      { rewrite Hca. apply put_node_view; [exact Hnd|]. exists a. split; [exact Hin|reflexivity]. }
+      rewrite Hrun. split; [|split].
+      + constructor; try (rewrite <- Hrun; assumption); cbn.
+        * exists m'. reflexivity.
+        * exact Hsy.
+        * reflexivity.
+        * exact Hput.
+        * rewrite upd_anode_names. exact Hnd.
+        * intros x Hx. destruct (in_upd_anode _ _ x Hnd Hx) as [->|[Hx' _]]; [cbn; exact (Hdel a Hin)|exact (Hdel x Hx')].
+      + cbn. exact Hput.
+      + left. exists cs. split; [exact Hne|reflexivity].
+    - (* refused *)
+      rewrite Hr in Hrun. cbn [step set_ctl w_nfeed W1 set_fetch] in Hrun. rewrite Hf in Hrun. cbn [fst] in Hrun.
+      rewrite Hrun. split; [|split].
+      + constructor; try (rewrite <- Hrun; assumption); cbn; try assumption. exists m'. reflexivity.
+      + cbn. exact Hca.
+      + right. unfold ctl_of. cbn. rewrite Em. split; [reflexivity|split; [exact Hms|exact Href]].
+  Qed.
+
+  Definition unservedb (a : anode) : bool := match an_cidrs a with [] => true | _ => false end.
+  Definition unserved_nodes (w : world) : list anode := filter unservedb (w_nodes w).
+
+  Lemma filter_upd_anode_served a' l a : NoDup (map an_name l) -> In a l -> an_name a' = an_name a -> unservedb a = true -> unservedb a' = false ->
+    S (length (filter unservedb (upd_anode a' l))) = length (filter unservedb l).
+  Proof.
+    induction l as [|h t IH]; intros Hnd Hin Hn Hu Hu'; [destruct Hin|]. cbn in *. inversion Hnd; subst.
+    destruct (str_eqb (an_name h) (an_name a')) eqn:E.
+    - apply str_eqb_eq in E. assert (h = a).
+      { destruct Hin as [->|Hin]; [reflexivity|]. exfalso. apply H1. rewrite E, Hn. apply in_map. exact Hin. }
+      subst h. cbn. rewrite Hu, Hu'. reflexivity.
+    - destruct Hin as [->|Hin]; [rewrite Hn, str_eqb_refl in E; discriminate|].
+      cbn. destruct (unservedb h); cbn; rewrite <- (IH H2 Hin Hn Hu Hu'); reflexivity.
+  Qed.
+
+  (* a list of nodes without pod CIDRs, processed one after the other *)
+  Lemma serve_all_spec L : forall w, Quiet w -> NoDup (map an_name L) -> (forall a, In a L -> In a (w_nodes w) /\ an_cidrs a = []) ->
+    let w' := fold_left serve_one (map an_name L) w in
+    Quiet w' /\ (length (unserved_nodes w') <= length (unserved_nodes w))%nat /\
+    ((length (unserved_nodes w') < length (unserved_nodes w))%nat \/
+     (w_nodes w' = w_nodes w /\ msim (ctl_of w) (ctl_of w') /\
+      forall a, In a L -> exists mk, msim mk (ctl_of w') /\ refused_at po lab mk (held_cidrs (w_ncache w)) (an_labels a))).
+  Proof.
+    induction L as [|a L IH]; intros w Q Hnd HL; cbn [map fold_left].
+    - split; [exact Q|]. split; [apply le_n|]. right. split; [reflexivity|]. split; [apply msim_refl|intros a []].
+    - inversion Hnd as [|x l Hna HndL]; subst.
+      destruct (HL a (or_introl eq_refl)) as [Hin Hc].
+      destruct (serve_one_spec w a Q Hin Hc) as (Q1 & Hca1 & Hcase).
+      assert (HL1 : forall b, In b L -> In b (w_nodes (serve_one w (an_name a))) /\ an_cidrs b = []).
+      { intros b Hb. destruct (HL b (or_intror Hb)) as [Hbin Hbc]. split; [|exact Hbc].
+        destruct Hcase as [(cs & _ & ->)|(-> & _)]; [|exact Hbin].
+        apply in_upd_anode_old; [exact Hbin|]. cbn. intros E. apply Hna. rewrite <- E. apply in_map. exact Hb. }
+      destruct (IH (serve_one w (an_name a)) Q1 HndL HL1) as (Q' & Hle & Hrest).
+      split; [exact Q'|].
+      destruct Hcase as [(cs & Hne & Hnodes)|(Hnodes & Hms & Href)].
+      + (* a was served: the count went down and never goes up again *)
+        assert (Hdec : S (length (unserved_nodes (serve_one w (an_name a)))) = length (unserved_nodes w)).
+        { unfold unserved_nodes. rewrite Hnodes. apply (filter_upd_anode_served (with_cidrs a cs) (w_nodes w) a (q_names w Q) Hin eq_refl).
+          - unfold unservedb. rewrite Hc. reflexivity.
+          - unfold unservedb, with_cidrs. cbn. destruct cs; [contradiction|reflexivity]. }
+        split; [lia|]. left. lia.
+      + assert (Hun : unserved_nodes (serve_one w (an_name a)) = unserved_nodes w) by (unfold unserved_nodes; rewrite Hnodes; reflexivity).
+        rewrite Hun in Hle, Hrest. split; [exact Hle|].
+        destruct Hrest as [Hlt|(Hn' & Hms' & Hall)]; [left; exact Hlt|]. right.
+        assert (Hcache : w_ncache (serve_one w (an_name a)) = w_ncache w) by (rewrite Hca1, Hnodes; symmetry; exact (q_cache w Q)).
+        split; [congruence|]. split; [eapply msim_trans; eassumption|].
+        intros b [<-|Hb].
+        * exists (ctl_of w). split; [eapply msim_trans; eassumption|exact Href].
+        * destruct (Hall b Hb) as (mk & A & B). exists mk. split; [exact A|]. rewrite Hcache in B. exact B.
+  Qed.
+
+  Definition round (w : world) : world := fold_left serve_one (map an_name (unserved_nodes w)) w.
+
+  (* every node still without pod CIDRs was processed in a state that differs from this one in search cursors only, and
+     was refused there: no entry offered for its labels had room *)
+  Definition settled (w : world) : Prop :=
+    forall a, In a (w_nodes w) -> an_cidrs a = [] ->
+      exists mk, msim mk (ctl_of w) /\ refused_at po lab mk (held_cidrs (w_ncache w)) (an_labels a).
+
+  Lemma NoDup_map_filter {A B} (f : A -> B) (g : A -> bool) l : NoDup (map f l) -> NoDup (map f (filter g l)).
+  Proof.
+    induction l as [|h t IH]; cbn; [auto|]. intros H. inversion H; subst. destruct (g h); cbn; [|apply IH; assumption].
+    constructor; [|apply IH; assumption]. intros Hin. apply H2. apply in_map_iff in Hin. destruct Hin as (x & E & Hx). apply filter_In in Hx. rewrite <- E. apply in_map. apply Hx.
+  Qed.
+
+  Lemma round_spec w : Quiet w ->
+    Quiet (round w) /\ ((length (unserved_nodes (round w)) < length (unserved_nodes w))%nat \/ settled (round w)).
+  Proof.
+    intros Q. unfold round.
+    destruct (serve_all_spec (unserved_nodes w) w Q) as (Q' & _ & Hcase).
+    - apply NoDup_map_filter. exact (q_names w Q).
+    - intros a Ha. unfold unserved_nodes in Ha. apply filter_In in Ha. destruct Ha as [Ha Hu]. split; [exact Ha|].
+      unfold unservedb in Hu. destruct (an_cidrs a); [reflexivity|discriminate].
+    - split; [exact Q'|]. destruct Hcase as [Hlt|(Hn & _ & Hall)]; [left; exact Hlt|]. right.
+      intros a Ha Hc. rewrite Hn in Ha.
+      assert (Hau : In a (unserved_nodes w)) by (unfold unserved_nodes; apply filter_In; split; [exact Ha|unfold unservedb; rewrite Hc; reflexivity]).
+      destruct (Hall a Hau) as (mk & A & B). exists mk. split; [exact A|].
+      assert (Hcache : w_ncache (fold_left serve_one (map an_name (unserved_nodes w)) w) = w_ncache w)
+        by (rewrite (q_cache _ Q'), Hn; symmetry; exact (q_cache w Q)).
+      rewrite Hcache. exact B.
+  Qed.
+
+  Lemma iter_shift {A} (f : A -> A) k x : Nat.iter (S k) f x = Nat.iter k f (f x).
+  Proof. induction k as [|k IH]; [reflexivity|]. cbn in *. rewrite IH. reflexivity. Qed.
+
+  (* C11, the measure argument: from a quiet world, at most (number of nodes without pod CIDRs) + 1 fair fault-free rounds
+     lead to a settled world *)
+  Theorem rounds_converge n : forall w, Quiet w -> (length (unserved_nodes w) <= n)%nat ->
+    exists k, (k <= S n)%nat /\ Quiet (Nat.iter k round w) /\ settled (Nat.iter k round w).
+  Proof.
+    induction n as [|n IH]; intros w Q Hn.
+    - destruct (round_spec w Q) as [Q' [Hlt|Hs]]; [lia|]. exists 1%nat. split; [lia|]. split; assumption.
+    - destruct (round_spec w Q) as [Q' [Hlt|Hs]].
+      + destruct (IH (round w) Q' ltac:(lia)) as (k & Hk & Qk & Sk). exists (S k). split; [lia|].
+        rewrite iter_shift. split; assumption.
+      + exists 1%nat. split; [lia|]. split; assumption.
+  Qed.
+End Round.
